@@ -295,12 +295,14 @@ static int ex_lineno(char **num)
 		break;
 	case '\'':
 		if (lbuf_jump(xb, (unsigned char) *++(*num), &n, NULL))
-			return -1;
+			return -2;	/* not address 0 */
 		++*num;
 		break;
 	case '/':
 	case '?':
 		n = ex_search(num);
+		if (n < 0)
+			return -2;	/* not address 0 */
 		break;
 	default:
 		if (isdigit((unsigned char) **num)) {
